@@ -81,6 +81,8 @@ def gen_algebra(draw, tier="quick"):
         "t": draw(logfloat(0.05, 5)),
         # ratios / angles handed over as lists, or as float arrays that the caller fills with other numbers afterwards
         "arg_form": draw(st.sampled_from(["list", "list", "array_reused", "array_reused_exact_len"])),
+        # metric space-time model of the same total dimension: the last axis is time and takes no part in rotations
+        "temporal": dim >= 2 and draw(st.integers(0, 3)) == 0,
     }
 
 
@@ -97,14 +99,18 @@ def check_algebra(case, rec):
             g_arg = [float(v) for v in geo.pad_angles(dim, case["angles"])]
         a_arg, g_arg = np.array(a_arg, dtype=np.double), np.array(g_arg, dtype=np.double)
         rec.label("ratios_and_angles_as_reused_arrays")
+    temporal = bool(case.get("temporal")) and dim >= 2
+    dkw = dict(temporal=True, spatial_dim=dim - 1) if temporal else dict(dim=dim)
+    if temporal:
+        rec.label(f"temporal_{dim - 1}d+t")
     model = lib(
         getattr(gs, case["cls"]),
-        dim=dim,
         len_scale=case["len_scale"],
         anis=a_arg,
         angles=g_arg,
         _what="model construction",
         _tags=tags,
+        **dkw,
     )
     if form != "list":
         a_arg[...] = 123.0
@@ -113,6 +119,11 @@ def check_algebra(case, rec):
     scale = max(1.0, float(np.max(np.abs(pos))))
     anis_o = geo.pad_anis(dim, case["anis"])
     ang_o = geo.pad_angles(dim, case["angles"])
+    if temporal:
+        # only the rotations among the spatial axes are kept (the first n_angles(dim - 1) entries); time is never rotated into space
+        ang_o = np.array(ang_o, dtype=float)
+        ang_o[geo.n_angles(dim - 1):] = 0.0
+        require(model.dim == dim and model.temporal, f"space-time model: dim {model.dim}, temporal {model.temporal}", tags)
     # padding rules
     require(
         np.allclose(model.anis, anis_o, rtol=1e-14, atol=0) if dim > 1 else len(model.anis) == 0,
@@ -128,8 +139,9 @@ def check_algebra(case, rec):
     # library rotation matrix
     from gstools.tools import geometric as gg
 
-    Rl = lib(gg.matrix_rotate, dim, case["angles"])
-    Dl = lib(gg.matrix_derotate, dim, case["angles"])
+    ang_arg = case["angles"] if not temporal else [float(a) for a in ang_o]
+    Rl = lib(gg.matrix_rotate, dim, ang_arg)
+    Dl = lib(gg.matrix_derotate, dim, ang_arg)
     err = float(np.max(np.abs(Rl - R)))
     rec.discrepancy("rotation", err, 1e-12)
     require(err <= 1e-12, f"matrix_rotate deviates from documented convention by {err:.3g}", tags)
